@@ -32,3 +32,10 @@ package stringx
 //@   loop 1 iteration-ensures [each-word-lower-cased-in-order] calls(ToLower) == 1 && len(target) == at_head(len(target)) + 1 && target[at_head(len(target))] == ret(ToLower) && calls(From, at_head(list[rangeindex + 1])) == 1
 //@   ensures [split-before-upper-case-keeping-it] calls(s.splitBy) == 1 && !arg(s.splitBy, 2) && arg(s.splitBy, 1) == unicode.IsUpper
 //@   ensures [joined-with-underscore] calls(strings.Join) == 1 && arg(strings.Join, 1) == "_" && result == ret(strings.Join)
+// Title: a blank string is returned as it is; otherwise the title caser is made for this one call (x/text casers
+// keep state and must not be shared between goroutines) and applied to the whole string.
+//@ func (String).Title
+//@   prop C20
+//@   opaque IsEmptyOrSpace
+//@   ensures [blank-as-it-is] ret(IsEmptyOrSpace) ==> result == s.source && calls(cases.Title) == 0
+//@   ensures [own-caser-per-call] !ret(IsEmptyOrSpace) ==> calls(cases.Title) == 1 && calls(String) == 1 && arg(String, 0) == ret(cases.Title) && arg(String, 1) == s.source && result == ret(String)
